@@ -55,7 +55,10 @@ def case(g, tier, ci):
     which = r.choice(["bp", "bp", "el", "sq", "sq"])
     SR = r.choice([10, 100, 1e3, 2.5, 1e6, 1e9])
     if which == "bp":
-        bops, info = g.blueprint("a", SR=SR, nseg=(1, 6), kinds=KINDS, waits=0.25, aligned=True, markers=True)
+        if r.random() < 0.06:      # more than 99 segments: the segment keys no longer sort as strings
+            bops, info = g.blueprint("a", SR=SR, nseg=(100, 125), kinds=("ramp",), waits=0.0, aligned=True, markers=False, seg_n=2)
+        else:
+            bops, info = g.blueprint("a", SR=SR, nseg=(1, 6), kinds=KINDS, waits=0.25, aligned=True, markers=True)
         # names: pool with digits inside, repeats
         for o in bops:
             if o["op"] == "bp.insert" and o["fn"] != "waituntil" and r.random() < 0.7:
@@ -80,7 +83,9 @@ def case(g, tier, ci):
         for fld in ("twait", "nrep", "jump_input", "jump_target", "goto"):
             if r.random() < 0.6:
                 hi = P if fld in ("jump_target", "goto") else (3 if fld != "nrep" else 100)
-                ops.append({"op": "sq.setSeq", "id": "a", "pos": p, "field": fld, "v": r.randint(-1 if fld == "jump_target" else 0, hi)})
+                lo = -1 if fld == "jump_target" else 0
+                v = r.choice([lo, 0, 1, hi]) if r.random() < 0.6 else r.randint(lo, hi)      # boundary values first
+                ops.append({"op": "sq.setSeq", "id": "a", "pos": p, "field": fld, "v": v})
     if r.random() < 0.3:
         ops.append({"op": "sq.setName", "id": "a", "name": "myseq"})
     return ops + observe("sq", "a", "b")
